@@ -111,6 +111,20 @@ theorem PiPtr.placement_order_free (cfg : PiPtrCfg) (lv : Leaves) (K K' : Bytes)
   intro i
   rw [PiPtr.setup_slots cfg lv K db t t1 edb h sample t0 hs i, PiPtr.setup_slots cfg lv K' db' u u1 edb' h' sample u0 hs' i, hn]
 
+/-- PiPtr, per keyword (what Search reads): the blocks of the keyword processed after the keywords `pre` sit, in order, at
+    `sample.reverse[m], …, sample.reverse[m + k - 1]` with `m` = number of blocks of `pre` and `k` = its own number of
+    blocks — the image under the recorded random sample of an index segment that depends on the database only through
+    block counts.  A different sample moves them; keyword bytes, identifier bytes and the key do not. -/
+theorem PiPtr.placement_is_random_image (cfg : PiPtrCfg) (lv : Leaves) (hl : LeafLaws lv) (hplain : PlainSke cfg.ske)
+    (K : Bytes) (pre : DB) (w : Bytes) (ids : List Bytes) (post : DB) (t t' : Tape) (edb : PiPtrEDB)
+    (h : PiPtr.setup cfg lv K (pre ++ (w, ids) :: post) t = .ok (edb, t'))
+    (sample : List Nat) (t0 : Tape) (hs : takeNats t = .ok (sample, t0)) (hn : sample.Nodup) :
+    ∃ K1 K2 blocks poss ptrs, PiPtr.token cfg lv K w = .ok (K1, K2) ∧ partitionBlocks ids cfg.B cfg.idSize = .ok blocks ∧
+      PiPtr.Placed cfg lv K2 (bytesFor (PiPtr.arrayLen cfg (pre ++ (w, ids) :: post))) edb.A blocks poss ptrs ∧
+      poss = (sample.reverse.drop (PiPtr.nBlocks cfg pre)).take (PiPtr.kwBlocks cfg ids) :=
+  PiPtr.setup_segment cfg lv (fun key iv msg c hiv he => ske_dec_enc lv hl cfg.ske hplain key iv msg c hiv he)
+    K pre w ids post t t' edb h sample t0 hs hn
+
 /-- non-vacuity of "moves": two samples whose tails differ name different slot sets -/
 example : (3 : Nat) ∈ [1, 2, 3].drop (3 - 1) ∧ (3 : Nat) ∉ [3, 1, 2].drop (3 - 1) := by decide
 
